@@ -175,8 +175,12 @@ def core_dispatch_contract(it, fn, args, kwargs):
     self = args[0]
     e = args[1] if len(args) > 1 else kwargs['e']
     c.pyghost.setdefault('core_calls', []).append(('dispatch', c.to_ref(e), dict(c.heap)))
-    k = c.choose(3, 'step-outcome')
-    outcome = ('tran', 'handled', 'ignored')[k]
+    inner_event = bool(c.pyghost.get('event_is_inner'))
+    if inner_event:
+        outcome = ('handled', 'ignored')[c.choose(2, 'meta-step-outcome')]      # top answers it or nobody does
+    else:
+        k = c.choose(3, 'step-outcome')
+        outcome = ('tran', 'handled', 'ignored')[k]
     c.pyghost['outcome'] = outcome
     st, tm = c.read(self, 'state'), c.read(self, 'temp')
     cur = c.hget(st, 'fun')
@@ -206,10 +210,16 @@ def core_dispatch_contract(it, fn, args, kwargs):
                        c.hget(z3.Select(T, _i), 'SpyTuple.datetime') != NONE,
                        z3.Implies(c.hget(z3.Select(T, _i), 'SpyTuple.hook'), z3.BoolVal(outcome == 'handled'))))),
                 patterns=[z3.Select(T, _i)]))
-            w = c.fresh('answering_offer', z3.IntSort())       # the offer that was answered (or the offer to top's child)
-            c.assume(z3.And(n0 <= w, w < n1, qualifying(it, z3.Select(T, w)),
-                            c.hget(z3.Select(T, w), 'SpyTuple.hook') == z3.BoolVal(outcome == 'handled')))
-            c.pyghost['answering_offer'] = w
+            if inner_event:
+                # every invocation carried one of the processor's own signals: all tuples are internal ones
+                c.assume(z3.ForAll([_i], z3.Implies(z3.And(n0 <= _i, _i < n1),
+                                                    c.hget(z3.Select(T, _i), 'SpyTuple.internal') == TRUE_OBJ(it)),
+                                   patterns=[z3.Select(T, _i)]))
+            else:
+                w = c.fresh('answering_offer', z3.IntSort())   # the offer that was answered (or the offer to top's child)
+                c.assume(z3.And(n0 <= w, w < n1, qualifying(it, z3.Select(T, w)),
+                                c.hget(z3.Select(T, w), 'SpyTuple.hook') == z3.BoolVal(outcome == 'handled')))
+                c.pyghost['answering_offer'] = w
     return None
 
 
@@ -250,7 +260,7 @@ def hooked_loop_spec():
                     z3.And(0 <= _i, _i < k, qualifying(it, z3.Select(A, _i))),
                     z3.Not(c.hget(z3.Select(A, _i), 'SpyTuple.hook'))), patterns=[z3.Select(A, _i)])),
                 ('signal-is-the-events', z3.If(seen, z3.And(sn != NONE, sval(sn) == sg), sn == it.w.strobj(''))),
-                ('timestamp-of-an-offer', z3.Implies(seen, c.to_ref(env['dt']) != NONE))]
+                ('timestamp-of-an-offer', z3.If(seen, c.to_ref(env['dt']) != NONE, c.to_ref(env['dt']) == NONE))]
     def on_exit(it, env):
         # proof step: the answering offer (ghost witness of the core contract) is one of the examined tuples
         c = it.c
@@ -298,13 +308,22 @@ def instr_chart(it, host, room=True):
     return self, cur
 
 
-def t_instr_dispatch(host):
+def t_instr_dispatch(host, meta=None):
+    """meta: the dispatched event carries one of the processor's own signals (an active object handles
+    SUBSCRIBE_META_SIGNAL / PUBLISH_META_SIGNAL in its top state): offered like any event, answered by top
+    (handled) -- never a transition, so never a trace record."""
     def run(it):
         c, g = it.c, it.c.ghost
         from contracts import hsm_core as H
         self, cur = instr_chart(it, host)
         H.mon_init(c, cur, NONE, H.SEARCH)
-        e = symbolic_event(it)
+        if meta:
+            e = c.fresh_ref('e', 'Event')
+            c.hset(e, 'signal', z3.IntVal(it.w.signals[meta]))
+            c.hset(e, 'signal_name', it.w.strobj(meta))
+            c.pyghost['event_is_inner'] = True
+        else:
+            e = symbolic_event(it)
         c.pyghost['event_name'] = sval(c.hget(e, 'signal_name'))
         full, rtc = c.read(self, 'full'), c.read(self, 'rtc')
         tr, fs, rs, rt = c.read(full, 'trace'), c.read(full, 'spy'), c.read(rtc, 'spy'), c.read(rtc, 'tuples')
@@ -354,7 +373,7 @@ def t_instr_dispatch(host):
         c.prove('dispatch@%s:transparent/nothing-logged-when-not-instrumented' % host,
                 z3.Implies(z3.Not(instr), z3.And(TR1.len == TR0.len, FS1.len == FS0.len)), tags=('C18', 'C19', 'C20'))
         c.cover('dispatch@%s:cover' % host)
-    return Target('dispatch@%s[wrappers]' % host, run,
+    return Target('dispatch@%s[wrappers]%s' % (host, '[%s]' % meta if meta else ''), run,
                   ['hsm.InstrumentedHsmEventProcessor.dispatch',
                    'hsm.InstrumentedHsmEventProcessor.append_to_full_spy._append_to_full_spy',
                    'hsm.InstrumentedHsmEventProcessor.append_to_full_trace._append_to_full_trace',
@@ -372,7 +391,14 @@ def t_instr_start_at(host):
         H.mon_init(c, cur, NONE, H.SEARCH)
         full, rtc = c.read(self, 'full'), c.read(self, 'rtc')
         tr, fs, rs, rt = c.read(full, 'trace'), c.read(full, 'spy'), c.read(rtc, 'spy'), c.read(rtc, 'tuples')
-        c.assume(z3.And(B.seq_len(it, rt) == 0, B.seq_len(it, rs) == 0))     # nothing logged before the chart starts
+        # no invocation was logged before the chart starts; events posted before start_at have left their markers
+        r0 = B.seq_len(it, rs)
+        c.assume(B.seq_len(it, rt) == 0)
+        if host in QUEUED_HOSTS:
+            c.assume(z3.And(r0 >= 0, r0 < c.hget(rs, '$maxlen') - 20))
+            c.assume(z3.ForAll([_i], z3.Implies(z3.And(0 <= _i, _i < r0), z3.Select(B.seq_items(it, rs), _i) != NONE)))
+        else:
+            c.assume(r0 == 0)
         S = c.fresh_ref('initial_state', 'state', distinct=False)
         c.assume(z3.And(S.e != NONE, S.e != TOP))
         m = c.fresh('search_for_spy_on_in_code', Ref)
@@ -411,12 +437,13 @@ def t_instr_start_at(host):
             sval(c.hget(rec, 'TraceTuple.end_state')) == sval(name_of(new)))), tags=('C20',))
         heap_at_core = calls[0][2]
         RS_at = view(it, rs, heap_at_core)
-        c.prove('start_at@%s:spy/START-is-the-first-line' % host, z3.Implies(decorated, z3.And(
-            RS_at.len == 1, sval(RS1.at(0)) == c.strconst('START'))), tags=('C19',))
+        c.prove('start_at@%s:spy/START-is-the-first-line-of-the-start-step' % host, z3.Implies(decorated, z3.And(
+            RS_at.len == r0 + 1, sval(RS1.at(r0)) == c.strconst('START'))), tags=('C19',))
         c.prove('start_at@%s:spy/full-spy-begins-with-the-step-log' % host, z3.Implies(decorated, z3.And(
             FS1.len >= FS0.len + RS_at.len,
             z3.ForAll([_i], z3.Implies(z3.And(0 <= _i, _i < FS0.len), FS1.at(_i) == FS0.at(_i))),
-            FS1.at(FS0.len) == RS1.at(0))), tags=('C19',))
+            z3.ForAll([_i], z3.Implies(z3.And(0 <= _i, _i < RS_at.len), FS1.at(FS0.len + _i) == RS1.at(_i))))),
+            tags=('C19',))
         c.prove('start_at@%s:transparent/nothing-logged-for-undecorated-charts' % host,
                 z3.Implies(z3.Not(decorated), z3.And(TR1.len == TR0.len, FS1.len == FS0.len)), tags=('C18', 'C19', 'C20'))
         c.cover('start_at@%s:cover' % host)
@@ -592,6 +619,8 @@ def family(src, tier):
     wu = instr_world(src, tier, spied=False)
     return [(w, ts),
             (wi, [t_instr_dispatch('InstrumentedHsmEventProcessor'), t_instr_dispatch('HsmWithQueues'),
+                  t_instr_dispatch('HsmWithQueues', meta='SUBSCRIBE_META_SIGNAL'),
+                  t_instr_dispatch('HsmWithQueues', meta='PUBLISH_META_SIGNAL'),
                   t_instr_start_at('InstrumentedHsmEventProcessor'), t_instr_start_at('HsmWithQueues'),
                   t_instr_start_at('ActiveObject'), t_live_trace('rtc'), t_live_trace('start'),
                   t_live_spy('rtc'), t_live_spy('start'), t_current_state()]),
@@ -683,3 +712,38 @@ def t_marker(op, host='HsmWithQueues'):
 
 def marker_targets():
     return [t_marker(op) for op in ('post_fifo', 'post_lifo', 'defer', 'recall', 'scribble')]
+
+
+# ------------------------------------------------------------------ clear_spy / clear_trace (C19, C20, C21)
+def t_clear(which):
+    """clear_spy / clear_trace empty the full log and leave it the ring buffer it was (same capacity): what is logged
+    afterwards is again "the most recent entries", up to the documented size."""
+    field, const = ('spy', 'SPY_RING_BUFFER_SIZE') if which == 'clear_spy' else ('trace', 'TRC_RING_BUFFER_SIZE')
+
+    def run(it):
+        c = it.c
+        self = make_chart(it, 'HsmWithQueues')
+        flags(it, self)
+        instr = c.hget(self, 'instrumented')
+        full = c.read(self, 'full')
+        cap = class_const(it, 'HsmEventProcessor', const)
+        other_f = 'trace' if field == 'spy' else 'spy'
+        other = c.read(full, other_f)
+        O0 = view(it, other)
+        D0 = view(it, c.read(full, field))
+        out = run_body(it, method(it, self, which), [])
+        c.prove('%s:post/returns-normally' % which, out.raised is None, tags=('C19', 'C20'))
+        if out.raised is not None:
+            return
+        d1 = c.read(c.read(self, 'full'), field)
+        D1 = view(it, d1)
+        c.prove('%s:post/the-full-%s-is-empty-when-instrumented' % (which, field),
+                z3.If(instr, D1.len == 0, z3.And(d1.e == c.read(full, field).e, D1.len == D0.len)), tags=('C19', 'C20'))
+        c.prove('%s:post/the-full-%s-keeps-its-documented-capacity' % (which, field), D1.maxlen == cap, tags=('C19', 'C20'))
+        o1 = c.read(c.read(self, 'full'), other_f)
+        O1 = view(it, o1)
+        j = z3.Int('j!clr')
+        c.prove('%s:frame/the-other-log-is-untouched' % which,
+                z3.And(o1.e == other.e, O1.len == O0.len, O1.maxlen == O0.maxlen,
+                       z3.ForAll([j], z3.Implies(z3.And(0 <= j, j < O0.len), O1.at(j) == O0.at(j)))), tags=('C19', 'C20'))
+    return Target(which + '@HsmWithQueues', run, ['hsm.HsmWithQueues.' + which])
